@@ -95,7 +95,9 @@ def roles(cx, s):
                     if cx.publishes_fast_debt(cb.key):
                         role = ('cell-confirm-load', 0, 'SeqCst', 'other half of the Dekker pair with the writer\'s RMW; also Acquire because of ABA')
                     elif cx.publishes_intent(cb.key) and role is None:
-                        role = ('cell-fallback-load', 0, 'Acquire', 'brings the pointee in; the sequence starts at the SeqCst swap on control')
+                        role = ('cell-fallback-load', 0, 'SeqCst', 'other half of the store-buffering (Dekker) pair of the helping path: reader = control.swap(gen) ; '
+                                'cell.load, writer = cell RMW ; control.load. A writer that still read IDLE must be seen by this load; only a SeqCst load is in the single total '
+                                'order that argument needs (with Acquire the load may return the pointer the writer already replaced and released: Miri shows the use-after-free)')
                 if role:
                     out.append(role)
     elif s.cls == 'debt':
@@ -103,6 +105,9 @@ def roles(cx, s):
             out.append(('debt-fast-publish', 0, 'SeqCst', 'Dekker pair with the writer\'s cell RMW'))
         if s.op in ('compare_exchange', 'compare_exchange_weak') and U.int_of(b, s.arg(2)) == cx.NONE:
             out.append(('debt-payback', 0, 'Release', 'protected accesses may not sink below the pay-back'))
+            out.append(('debt-payback-fail', 1, 'Acquire', 'the Release of a reader that returned its debt itself needs an Acquire partner: the only one who can be it is '
+                        'the writer whose pay-back on that slot FAILS (it reads the NONE the reader stored). Without it the reader\'s reads of the value do not happen-before '
+                        'its destruction by whoever drops the last reference later (Miri: data race on the pointee)'))
     elif s.cls == 'control':
         if s.op == 'swap':
             v = U.int_of(b, s.arg(1))
@@ -221,7 +226,7 @@ def rule_ord(fx, col, only_roles=None):
 
 ORD_ROLE_FLOORS = {
     # role -> minimum number of sites that must be found (counted by hand on the unchanged tree)
-    'cell-rmw': 2, 'cell-confirm-load': 1, 'cell-fallback-load': 1, 'debt-fast-publish': 1, 'debt-payback': 1,
+    'cell-rmw': 2, 'cell-confirm-load': 1, 'cell-fallback-load': 1, 'debt-fast-publish': 1, 'debt-payback': 1, 'debt-payback-fail': 1,
     'control-intent': 1, 'control-confirm': 1, 'control-helper-load': 2, 'control-handover-cas': 1,
     'control-handover-cas-fail': 1, 'head-traverse-load': 1, 'head-publish': 1, 'inuse-claim': 1,
     'inuse-cooldown': 1, 'inuse-cooldown-check': 1, 'writers-enter': 1, 'writers-leave': 1,
